@@ -78,6 +78,8 @@ func applySeat(m *sm.SeatManager, op SOp) (got int, res string) {
 		err = m.Leave(op.Seat)
 	case "Next":
 		err = m.Next()
+	case "Reset":
+		m.Reset()
 	default:
 		return -1, "harness: unknown op"
 	}
@@ -124,6 +126,7 @@ func randomSeatHistory(o *potsOut, run int, r *rand.Rand, steps int) *seatRun {
 		max = 2 + r.Intn(4)
 	}
 	sr := newSeatRun(o, run, max)
+	resets := r.Intn(3) == 0 // one history in three uses Reset()
 	// phases make long stretches of "others staying put" likely
 	for i := 0; i < steps; i++ {
 		seat := r.Intn(max)
@@ -156,6 +159,14 @@ func randomSeatHistory(o *potsOut, run int, r *rand.Rand, steps int) *seatRun {
 			sr.do(SOp{Op: "Reserve", Seat: seat, P: 0})
 		case k < 46:
 			sr.do(SOp{Op: "Leave", Seat: seat, P: 0})
+		case k < 48 && resets:
+			// everybody is sent away (the positions stay where they were); most of the time the table fills up again at once
+			sr.do(SOp{Op: "Reset", Seat: -1, P: 0})
+			for s := 0; s < max && r.Intn(3) != 0; s++ {
+				if r.Intn(4) != 0 && sr.do(SOp{Op: "Join", Seat: s, P: 0}) == "" && r.Intn(5) != 0 {
+					sr.do(SOp{Op: "SitIn", Seat: s, P: 0})
+				}
+			}
 		default:
 			res = sr.do(SOp{Op: "Next", Seat: -1, P: 0})
 			if res == "PANIC" {
@@ -254,6 +265,9 @@ func cmdSeatReplay(args []string) {
 				if d := sr.m.Dealer(); d != nil {
 					lastDealer = d.ID
 				}
+			}
+			if op.Op == "Reset" {
+				posAtNext, occAtNext = []int{-1, -1, -1}, []int{}
 			}
 			if op.Op == "Next" && res == "" {
 				pj := projSeat(sr.m)
@@ -445,6 +459,7 @@ func cmdSeatExplore(args []string) {
 	nplayers := fs.Int("players", 4, "player ids 1..k (a player id is never seated twice)")
 	maxStates := fs.Int("max-states", 3000000, "")
 	anon := fs.Bool("anon", false, "identify states up to player identities")
+	noReset := fs.Bool("no-reset", false, "leave Reset() out of the alphabet")
 	emit := fs.String("emit", "all", "all | changing (calls that change the seat map, and every Next) | next (Next only)")
 	fork := fs.String("fork", "replay", "replay: states are rebuilt by replaying their op path | snapshot: ApplyStates")
 	sample := fs.Int("sample", 1, "record the calls of every k-th state only (all states are still explored)")
@@ -523,6 +538,9 @@ func cmdSeatExplore(args []string) {
 			ops = append(ops, SOp{Op: "SitIn", Seat: s, P: 0}, SOp{Op: "Reserve", Seat: s, P: 0}, SOp{Op: "Leave", Seat: s, P: 0})
 		}
 		ops = append(ops, SOp{Op: "Next", Seat: -1, P: 0})
+		if !*noReset {
+			ops = append(ops, SOp{Op: "Reset", Seat: -1, P: 0})
+		}
 		// Join(-1) picks its seat at random: try it several times
 		for k := 0; k < 5 && *emit == "all"; k++ {
 			ops = append(ops, ops[1])
@@ -562,6 +580,9 @@ func cmdSeatExplore(args []string) {
 					if d := m.Dealer(); d != nil {
 						child.lastDealer = d.ID
 					}
+				}
+				if op.Op == "Reset" {
+					child.posAtNext, child.occAtNext = []int{-1, -1, -1}, []int{}
 				}
 				if op.Op == "Next" && res == "" {
 					pj := projSeat(m)
